@@ -58,6 +58,7 @@ inline bool deliver_F(Rng& r, uint64_t idx)
                                uint16_t li = static_cast<uint16_t>(tr.below(w.loggers.size()));
                                issue_std(ts[t].issues, w.loggers[li].lg, li, quill::LogLevel::Info, t + 1, s, draw_len(tr));
                                if (tr.chance(1, 16)) jitter(tr, 2);
+                               if (tr.chance(1, 60)) w.loggers[li].lg->flush_log(tr.chance(1, 2) ? 100 : 0);
                              }
                            });
   }
@@ -97,7 +98,7 @@ inline bool deliver_S(Rng& r, uint64_t idx)
   // schedule policy
   uint32_t const policy = static_cast<uint32_t>(r.below(5)); // 0 uniform, 1 starve backend, 2 poll after every statement, 3 exit before first poll, 4 bursts
   uint32_t const steps = static_cast<uint32_t>(r.range(40, 300));
-  uint64_t hard_limit_stops = 0, early_exits = 0, polled_yet = 0;
+  uint64_t hard_limit_stops = 0, early_exits = 0, polled_yet = 0, flushes = 0;
   World* wp = &w;
   auto do_log = [&](SW& s)
   {
@@ -137,6 +138,16 @@ inline bool deliver_S(Rng& r, uint64_t idx)
       continue;
     }
     auto idle = run.idle_workers();
+    if (x >= 92 && x < 96 && !idle.empty())
+    {
+      // a flush request travels through the queues like a statement; when it is processed the backend also reclaims
+      // the contexts of exited threads (which may still have decoded statements buffered)
+      SW& s = *idle[r.below(idle.size())];
+      uint16_t li = static_cast<uint16_t>(r.below(w.loggers.size()));
+      ++flushes;
+      run.run_on(s, [wp, li] { tl_control_op = true; wp->loggers[li].lg->flush_log(0); tl_control_op = false; }, "flush_log");
+      continue;
+    }
     if (x >= 96 && !idle.empty())
     {
       // a thread exits (possibly with statements still queued, possibly before the backend has polled at all)
@@ -177,6 +188,7 @@ inline bool deliver_S(Rng& r, uint64_t idx)
   stat_add("mode_s_injected_ops_inside_backend_windows", static_cast<long long>(run.injected));
   stat_add("mode_s_blocked_parks", static_cast<long long>(run.parks_seen));
   stat_add("threads_exited_before_first_poll", static_cast<long long>(early_exits));
+  stat_add("flush_requests_interleaved", static_cast<long long>(flushes));
   stat_sig("deliver_sigs", "S/" + std::to_string(run.sig_hash));
   w.teardown_loggers();
   return ok && !run.failed;
